@@ -1038,7 +1038,42 @@ impl World {
         }
         let flat = sent;
         let n_needs = flat.len();
-        let (msgs, err) = self.node(s).serve(frames).await?;
+        let mut mid_pre: Option<super::oracle::ServerView> = None;
+        let (msgs, err) = match &faults.mid {
+            None => self.node(s).serve(frames).await?,
+            Some(mid) => {
+                let pre = super::oracle::server_view(self, s).await?;
+                let mut sess = self.node(s).serve_start(frames).await?;
+                let mut k = 0usize;
+                let mut res: StepRes = Ok(Ok(()));
+                while sess.wait().await? {
+                    if k == mid.at {
+                        self.stats.fault("activity-while-serving-sync");
+                        self.logln(format!("  mid-session activity on n{s}: {}", mid.what));
+                        let ev = match mid.what.as_str() {
+                            "deliver" => Event::DeliverAll { node: s, batch: 1000 },
+                            "apply" => Event::ApplyAll { node: s },
+                            _ => Event::ClearAll { node: s },
+                        };
+                        res = Box::pin(self.exec_inner(&ev)).await;
+                        mid_pre = Some(pre.clone());
+                        k += 1;
+                        break;
+                    }
+                    k += 1;
+                    sess.step();
+                }
+                let out = sess.finish().await?;
+                match res {
+                    Ok(Ok(())) => {}
+                    other => return other,
+                }
+                if mid_pre.is_none() {
+                    self.stats.probe("sync.mid-point-not-reached");
+                }
+                out
+            }
+        };
         let mut answers = changeset_msgs(msgs);
         answers.sort_by_key(|cv| {
             let a = *self.actor_idx.get(&cv.actor_id).unwrap_or(&999);
@@ -1057,7 +1092,12 @@ impl World {
         if let Some(e) = err {
             return vio("C05", "serve-failed", json!({"server": s, "error": e}));
         }
-        tri!(super::oracle::check_answers(self, s, &fresh, &flat, &answers).await);
+        match mid_pre {
+            // the server's state changed while it was answering: every answer must be right for
+            // the state before or the state after the concurrent activity
+            Some(pre) => tri!(super::oracle::check_answers_mid(self, s, &pre, &flat, &answers).await),
+            None => tri!(super::oracle::check_answers(self, s, &fresh, &flat, &answers).await),
+        }
         // session faults
         let total = answers.len();
         let mut kept = vec![];
